@@ -85,12 +85,26 @@ def parseNat (s : String) : Nat := s.toNat?.getD 0
 
 def ex (want : String) (errOk : Bool := false) (alts : List String := []) : Expect := { want := want, errOk := errOk, alts := alts }
 
+/-- `needle` occurs in `l` as a contiguous block -/
+def hasInfix (l needle : List UInt8) : Bool :=
+  match l with
+  | [] => needle.isEmpty
+  | _ :: t => needle.isPrefixOf l || hasInfix t needle
+
+/-- the invalid expression of the fixed set -/
+def rxBad (i : Nat) : Bool := i == 4 || i ≥ 10
+
 def rxMatch (i : Nat) (rem : Bytes) : Bool :=
   match i with
   | 0 => true
   | 1 => rem.head? == some 98
   | 2 => rem.getLast? == some 99
-  | 3 => rem.isEmpty
+  | 3 => rem.isEmpty                        -- "^$"
+  | 5 => rem == [98]                        -- "^b$"
+  | 6 => rem == [97, 98]                    -- "^ab$"
+  | 7 => rem.contains 98                    -- "b"
+  | 8 => hasInfix rem [97, 98]              -- "ab"
+  | 9 => rem.head? == some 97 && rem.getLast? == some 99 && rem.length ≥ 2 && !rem.contains 10  -- "^a.*c$"
   | _ => false
 
 /-- parse `[k=v,k=v]` -/
@@ -281,12 +295,16 @@ def step (sp : SpecSt) (model : State) (cmd : String) (impl : String) : SpecOut 
     let l := (liveOf cur (B 1) (N 4)).filter fun p => ble (B 2) p.1 && ble p.1 (B 3)
     rd ("k:" ++ a 1) (if l.isEmpty then ex "err" else ex ("ok " ++ showPairs l))
   | "prefix" =>
+    -- the property speaks of `limit > 0` and of "no limit" (`ScanNoLimit` = -1): other limits are outside it
+    -- (the implementation answers "not found"; the model says so too and is what the line is compared with)
+    if !(I 4 > 0 || I 4 == -1) then (if !canRead then { st := sp, expect := some (ex "err") } else { st := sp, expect := none }) else
     let l := page ((liveOf cur (B 1) (N 5)).filter fun p => hasPrefix p.1 (B 2)) (I 3) (I 4)
     let hasDead := ((aget? model.kv (B 1)).getD []).any fun p => hasPrefix p.1 (B 2) && dead p.2.r (N 5)
     rd ("k:" ++ a 1) (if l.isEmpty then ex "err" else ex ("ok " ++ showPairs l))
       (if hasDead && (I 3 > 0 || I 4 > 0) then some "D-SCAN-DEAD" else none)
   | "psearch" =>
-    if N 3 ≥ 4 then { st := sp, expect := some (ex "err") } else
+    if rxBad (N 3) then { st := sp, expect := some (ex "err") } else
+    if !(I 5 > 0 || I 5 == -1) then (if !canRead then { st := sp, expect := some (ex "err") } else { st := sp, expect := none }) else
     let pre := B 2
     let l := page ((liveOf cur (B 1) (N 6)).filter fun p => hasPrefix p.1 pre && rxMatch (N 3) (p.1.drop pre.length)) (I 4) (I 5)
     let hasDead := ((aget? model.kv (B 1)).getD []).any fun p => hasPrefix p.1 pre && dead p.2.r (N 6)
